@@ -3,6 +3,7 @@ package core
 import (
 	"fmt"
 	"go/token"
+	"go/types"
 	"os"
 	"sort"
 	"strings"
@@ -186,6 +187,45 @@ func (w *World) EnableInlining(mentioned func(key, name string) bool) int {
 	inl = st
 	returnFactCache = map[*ssa.Return][]resultFact{}
 	return len(st.callee)
+}
+
+// thinForwarder: h is a method of an UNEXPORTED type whose body is one basic block with exactly one call that is
+// handed h's parameters (an adapter between the code and a collaborator: func (a adapter) Modify(ctx, ...) error {
+// return a.client.Modify(ctx, ...) }). Its exported name is an accident of the interface it mirrors; within the
+// package it is as much a part of its callers as an unexported helper.
+func thinForwarder(h *ssa.Function) bool {
+	if h.Signature == nil || h.Signature.Recv() == nil || len(h.Blocks) != 1 {
+		return false
+	}
+	t := h.Signature.Recv().Type()
+	if p, ok := t.Underlying().(*types.Pointer); ok {
+		t = p.Elem()
+	}
+	if p, ok := t.(*types.Pointer); ok {
+		t = p.Elem()
+	}
+	n, ok := t.(*types.Named)
+	if !ok || n.Obj().Exported() {
+		return false
+	}
+	calls := 0
+	for _, in := range h.Blocks[0].Instrs {
+		switch x := in.(type) {
+		case ssa.CallInstruction:
+			calls++
+			if _, isCall := x.(*ssa.Call); !isCall {
+				return false
+			}
+		case *ssa.Store:
+			// the spill of a value receiver into a local is no effect
+			if al, isLocal := x.Addr.(*ssa.Alloc); !isLocal || al.Heap {
+				return false
+			}
+		case *ssa.MapUpdate, *ssa.Send:
+			return false
+		}
+	}
+	return calls == 1
 }
 
 // InlinedCallee returns the callee when in is an inlined call site.
@@ -575,4 +615,16 @@ func VirtualCalls(f *ssa.Function, callArgs func(ssa.CallInstruction) []ssa.Valu
 		}
 	}
 	return out
+}
+
+// PkgPath is the import path of the package f belongs to ("" when unknown); instantiations of generic functions
+// have no Pkg of their own and answer with the package of their origin.
+func PkgPath(f *ssa.Function) string {
+	for f != nil && f.Parent() != nil {
+		f = f.Parent()
+	}
+	if p := pkgOf(f); p != nil && p.Pkg != nil {
+		return p.Pkg.Path()
+	}
+	return ""
 }
